@@ -162,6 +162,36 @@ def inj_case_twin(spec, r):
     return spec
 
 
+def inj_wide_group(spec, r):
+    """A group with 9-14 children and a cardinality that is none of the special kinds."""
+    k = r.randint(9, 14)
+    mn, mx = r.choice([(1, 1), (1, k), (0, 1), (2, k - 1), (k, k), (3, 3), (0, k)])
+    return spec if add_group(spec, r, mn, mx, k, leaf_only=True) else None
+
+
+def inj_many_ctcs(ops, n=(41, 70)):
+    def f(spec, r):
+        names = S.feature_names(spec)
+        for _ in range(r.randint(*n)):
+            ast = rand.rand_formula(r, r.sample(names, min(3, len(names))), r.randint(1, 2), ops)
+            if not isinstance(ast, list):
+                ast = [r.choice([o for o in ops if o != "NOT"]), ast, r.choice(names)]
+            _add_ctc(spec, ast)
+        return spec
+    return f
+
+
+def inj_deep_chain(spec, r):
+    """A chain of 12-20 nested one-child relations below a leaf (depth threshold)."""
+    leaves = [f for f in _feats(spec) if not f["rels"]]
+    cur = r.choice(leaves)
+    for n in _fresh(spec, r, r.randint(12, 20)):
+        nxt = {"name": n, "rels": []}
+        cur["rels"].append({"min": r.choice([0, 1]), "max": 1, "children": [nxt]})
+        cur = nxt
+    return spec
+
+
 def inj_nested_groups(spec, r):
     p = add_group(spec, r, 1, 1, 3, leaf_only=True)
     if not p:
@@ -209,6 +239,11 @@ ATTR_VALUES = {
     "attr:list-with-bool": lambda r: r.choice([[True], [True, False], [1, True]]),
     "attr:nested-list": lambda r: [[1, 2], [3]],
     "attr:nested-map": lambda r: r.choice([{"k": 1}, {"a": 1, "b": "x"}, {"outer": {"inner": 2}}, {"l": [1, 2]}]),
+    "attr:empty-list": lambda r: [],
+    "attr:float-many-digits": lambda r: r.choice([0.1234567891, 3.141592653589793, 1234567.125, 0.000123]),
+    "attr:big-int": lambda r: r.choice([2 ** 40, -(2 ** 33), 10 ** 15]),
+    "attr:zero-false": lambda r: r.choice([0, False, 0.0]),
+    "attr:empty-map": lambda r: {},
     "attr:str-empty": lambda r: "",
     "attr:str-squote": lambda r: "it's",
     "attr:str-dquote": lambda r: 'say "hi"',
